@@ -2,10 +2,11 @@
 # usage: tools/try_mutant.sh <patch.diff> <prop> [<prop>...]   -- applies the patch to /repo, runs the quick checks, reverts
 set -u
 P=$1; shift
+rm -rf /verif/.build/evidence.bak; cp -r /verif/evidence /verif/.build/evidence.bak
 cd /repo && git apply "$P" || { echo "patch does not apply"; exit 2; }
 cd /verif
 for c in "$@"; do
   echo "=== $c"; ( time tools/vcheck $c --tier ${TIER:-quick} ) 2>&1 | cut -c1-420 | grep -v "^$" | tail -12
 done
 cd /repo && git checkout -- . && git status --short | grep -v _build
-rm -rf /verif/evidence/replays
+rm -rf /verif/evidence; mv /verif/.build/evidence.bak /verif/evidence
